@@ -296,11 +296,19 @@ Definition c02_step (g : g02) (V : view) (ob : obs) : g02 * clauses :=
                                      chk (tok_amount a <=? tok_amount (vget V k)) k 24 (tok_amount a)) post)
         | _, _, _, _ => (g, [(dk, 19, 0)]) end
     | _ => (g, []) end in
+  (* "once-per-leaf" is relative to ONE tree: once rewards are final, root and contributor count never change again *)
+  let frozen := flat_map (fun '(k, a) =>
+      match dist_of (vget V k), dist_of a with
+      | Some (d0, _), Some (d1, _) =>
+          if d_rewards_final d0 then
+            chk ((d_total_contributors d0 =? d_total_contributors d1) && hash_eqb (d_rewards_root d0) (d_rewards_root d1) && d_rewards_final d1) k 15 0
+          else []
+      | _, _ => [] end) post in
   (* cumulative outflow never exceeds what was collected (trees with total share <= 100%) *)
   let cap := flat_map (fun '(k, a) => match dist_of a with
       | Some (d, _) => if d_swept d then chk (d_distributed_2z d + d_burned_2z d <=? d_prepaid_2z d + d_swept_2z d) k 13 (d_distributed_2z d + d_burned_2z d) else []
       | None => [] end) post in
-  (g', leak ++ cs ++ cap).
+  (g', leak ++ cs ++ frozen ++ cap).
 Definition mon_C02 := mon_run c02_step [].
 (* clauses 20-24 belong to C03; the driver attributes by clause number (mon_C03 is mon_C02 filtered) *)
 
